@@ -276,7 +276,10 @@ func Extra4(except ...byte) []Opt4 {
 		if skip[byte(c)] {
 			continue
 		}
+		out = append(out, Opt4{Code: byte(c), Data: []byte{}})
 		out = append(out, Opt4{Code: byte(c), Data: []byte{1}})
+		out = append(out, Opt4{Code: byte(c), Data: []byte{5, 0, 0}})
+		out = append(out, Opt4{Code: byte(c), Data: []byte{0xff, 0xff}})
 		out = append(out, Opt4{Code: byte(c), Data: []byte{10, 0, 0, 11}})
 		out = append(out, Opt4{Code: byte(c), Data: []byte{0, 0, 2, 88}}) // a small number (600)
 		long := make([]byte, 64)
